@@ -49,6 +49,10 @@ checks = {
    text="TLC enumerates query shapes with a fault-injecting function in every clause position the engine can express (and self-raising RAISE / RAISE_WHEN / type-error shapes) x tables and gives their fault-free meaning; the harness measures the number N of invocations of the fault-free run and re-runs with the k-th invocation failing for every k in 1..N, plain and Wrapped: New/Exec must report a failure and return no rows, no panic may escape, and the same statement re-run on the same document object must return the fault-free result.",
    tech="TLA+ specification (MC_C19 shapes over Genql/Engine, NoPartial invariant; Markers.tla for the cleanup protocol) model-checked with TLC; exhaustive fault enumeration k = 1..N per exported shape against the Go library",
    note="Exhaustive over the enumerated shapes x tables x every invocation index; other query shapes are not covered. The join ON position cannot hold a function in this engine and is covered by a failing derived table used as a join side."),
+ "C12": dict(cat="model_checking", ref="DESIGN.md 4 C12",
+   text="TLC checks that every result of the specification is a plain value (recursive Plain predicate: scalars, arrays, objects without a <- key) and a function of (query, document) over the matrix of every expression form in every clause position plus the statement-level forms; every case is executed against the real library and its result walked by reflection (no pointer, func, named engine type, non-finite number, cycle or <- key), passed through encoding/json and re-evaluated twice on equal inputs (equal sequence, or equal multiset where ORDER BY leaves ties / a join is involved).",
+   tech="TLA+ specification (Genql/Engine, Plain / Deterministic invariants over the form x position matrix MC_C12) model-checked with TLC; every exported case executed with reflection walk, JSON round trip and repeated evaluation",
+   note="The form x position matrix is finite and enumerated exhaustively; values are compared with the specification only as a diagnostic (binding drift), the verdict rests on plainness and determinism. One known finding (an ASYNC call used as a function argument)."),
 }
 not_applicable = []
 m = {
